@@ -34,24 +34,55 @@ def gen_explicit_h(R, tier):
     weights = []
     for i in range(k):
         if R.chance(0.5):
-            w = R.choice(['0.1', '0.2', '0.5'])
+            w = R.choice(['0.1', '0.2', '0.5', '0'])
             hs += '([H;%s])' % w
             weights.append(float(w))
         else:
             hs += '([H])'
-            weights.append(None)
-    wa = R.choice([None, '0.5', '2'])
+            weights.append(1.0)
+    wa = R.choice([None, '0.5', '2', '0'])
     atom = '[%s;%s]' % (heavy, wa) if wa else heavy
     frag = '[$]%s%s[$]' % (atom, hs)
     term = R.choice(['[$][H]', '[$]H', '[$]O', '[$]C'])
     s = base + '.{#A=%s,#T=%s}' % (frag, term)
     return dict(input=s, last_all_atom=True, legacy=True, kind='explicit_h', dedicated=False, nlevels=1,
-                features=['explicit_h'], explicit=dict(count=k * n, copies=n, weights=[w for w in weights if w is not None]))
+                features=['explicit_h'], explicit=dict(count=k * n, copies=n, weights=weights))
+
+
+def gen_weighted(R, tier):
+    """a C01 string whose atoms carry weight annotations (incl. weight 0): hydrogens must copy them"""
+    m, cname = molgen.gen_mol_class(R)
+    owner = molgen.partition(R, m, max_frags=R.choice([1, 2, 3]), min_frags=1)
+    ann = {i: R.choice(['0', '0.5', '2', 'w=0', 'w=0.25', '0.0']) for i in range(len(m.atoms)) if R.chance(0.4)}
+    if not ann:
+        ann = {0: '0'}
+    feats = {'mol:' + cname, 'weights'}
+    s, info = molgen.build_cgsmiles(R, m, owner, style=molgen.style_draw(R), feats=feats, annot=ann)
+    if s is None:
+        return None
+    if any(v in ('0', 'w=0', '0.0') for v in ann.values()):
+        feats.add('weight_zero')
+    return dict(input=s, last_all_atom=True, legacy=True, kind='weighted', dedicated=True, nlevels=1, features=sorted(feats))
+
+
+def gen_sampler(R, tier):
+    from .. import sampler
+    cfg = sampler.gen_cfg(R, tier, all_atom=True)
+    if cfg is None:
+        return None
+    cfg['kind'] = 'sampler'
+    cfg['features'] = sorted(set(cfg['features']) | {'sampler_output'})
+    return cfg
 
 
 def gen(R, tier):
-    if R.chance(0.12):
+    r = R.random()
+    if r < 0.12:
         return gen_explicit_h(R, tier)
+    if r < 0.27:
+        return gen_weighted(R, tier)
+    if r < 0.42:
+        return gen_sampler(R, tier)
     while True:
         case = resgen.gen_resolvable(R, tier, kinds=('fragset', 'fragset', 'cut', 'cut', 'levels'))
         if case is None or case['last_all_atom']:
@@ -62,10 +93,29 @@ def gen(R, tier):
 
 def nontrivial(case):
     f = set(case['features'])
-    return case['kind'] in ('fragset', 'explicit_h') or bool(f & {'charged_at_cut', 'aromatic_cut'})
+    if case['kind'] == 'sampler':
+        return case.get('_steps', 0) >= 1
+    return case['kind'] in ('fragset', 'explicit_h', 'weighted') or bool(f & {'charged_at_cut', 'aromatic_cut'})
+
+
+def key(case):
+    if case['kind'] == 'sampler':
+        return repr(sorted((k, repr(v)) for k, v in case.items() if k not in ('features', '_steps')))
+    return case['input']
 
 
 def oracle(case):
+    if case['kind'] == 'sampler':
+        from .. import sampler
+        smp, g, err = sampler.run_cfg(case)
+        if g is None:
+            e, open_bonds = err
+            if e.type in sampler.DEAD_END and sampler.dead_end_possible(case, smp, open_bonds):
+                return
+            raise e
+        invariants.check_valence(g, 'sampler output: ')
+        case['_steps'] = len({d['fragid'][0] for _, d in g.nodes(data=True)}) - 1
+        return
     last = {}
 
     def step(lv, cg, fine, templates, all_atom):
@@ -79,7 +129,7 @@ def oracle(case):
                     and d['mapping'][0][0] == 'A']
         expect(len(mapped_h) == case['explicit']['count'], 'valence:explicit-hydrogen-lost',
                lambda: '%d explicitly written hydrogens in the result, %d written' % (len(mapped_h), case['explicit']['count']))
-        ws = sorted(fine.nodes[n].get('weight') for n in mapped_h if fine.nodes[n].get('weight') not in (1, None))
+        ws = sorted(fine.nodes[n].get('weight', 'missing') for n in mapped_h)
         per_copy = sorted(case['explicit']['weights'])
         ncopies = case['explicit']['copies']
         expect(ws == sorted(per_copy * ncopies), 'valence:explicit-hydrogen-annotation',
